@@ -45,7 +45,11 @@ HARNESSES = [
        {'MEMS': 1, 'DTORS': 0, 'PRESENCE': _presence(7)}),
     _h('c10_core_pv', 'abstract class (pure virtual f) with at most one constructor declared (thorough: any special members), member int',
        {'MEMS': 1, 'DTORS': 0, 'PRESENCE': _presence(8, 9, 10)},
-       tdefs={'MEMS': 1, 'DTORS': 0, 'PRESENCE': _presence(8, 9, 10, 12, 11, 13, 14, 15)}),
+       tdefs={'MEMS': 1, 'DTORS': 0, 'PRESENCE': _presence(8, 9, 10, 12)}),
+    _h('c10_pv_two', 'abstract class with two special members declared, member int (thorough only)',
+       {'MEMS': 1, 'DTORS': 0, 'PRESENCE': _presence(11, 13, 14)}, cap=2400, tiers=('thorough',)),
+    _h('c10_pv_all', 'abstract class with A(), A(const A&) and ~A() declared, member int (thorough only)',
+       {'MEMS': 1, 'DTORS': 0, 'PRESENCE': _presence(15)}, cap=2400, tiers=('thorough',)),
     _h('c10_dtor_own', 'member int, ANY destructor (user / =default / =delete / virtual x access): is_destructible, is_abstract, '
        'is_polymorphic only', {'MEMS': 1, 'DTORS': 1, 'CHECKS': '0x1c', 'PRESENCE': _presence(4, 5, 6)},
        tdefs={'MEMS': 1, 'DTORS': 1, 'CHECKS': '0x1c', 'PRESENCE': _presence(4, 5, 6, 7, 12)}),
